@@ -22,7 +22,7 @@ from .. import paths, simloop, symx, util
 from ..front import AnalysisError, src
 
 EXPLANATION = __doc__
-RACE_WHAT = 'one pass of the loop is an event race: the clock goes to the earliest of the sampled reaction, the requested time point, the delay queue and the volume clock, and exactly the event that won is carried out (%d value combinations evaluated)'
+RACE_WHAT = 'one pass of the loop is an event race: the clock goes to the earliest of the sampled reaction, the requested time point, the delay queue and the volume clock, and exactly the event that won is carried out (%d value combinations of one pass in isolation, and %d consecutive passes from the set-up code on, on an unevenly spaced grid with scripted propensities and waiting times)'
 
 ASSUMPTIONS = ['the generator word is uniformly distributed (its quality is not analysed)']
 
@@ -307,7 +307,10 @@ def check(ctx):
     for key in ('SSASimulator',):
         sl_ = simloop.SimLoop(ctx, key)
         pr_, n_ = simloop.event_race(sl_)
-        ctx.ob('R5.2-event-race', key, not pr_, sl_.where, RACE_WHAT % n_, '; '.join(pr_[:2]))
+        pr2_, n2_ = simloop.event_race_run(sl_)
+        if pr_ is None:     # a pass is not evaluable in isolation (it reads locals carried between passes): the run decides
+            pr_, n_ = [], 0
+        ctx.ob('R5.2-event-race', key, not pr_ and not pr2_, sl_.where, RACE_WHAT % (n_, n2_), '; '.join((pr2_ + pr_)[:2]))
     rmod = prog.mod('random')
     sp_ = [(fn_.name, n_) for fn_ in rmod.tree.body if isinstance(fn_, ast.FunctionDef) for n_, _ in simloop.single_precision_decls(fn_)]
     ctx.ob('R5.1-precision', 'random', not sp_, 'bioscrape/random.pyx', 'no variable of the random primitives is declared single precision',
